@@ -49,12 +49,15 @@ MALFORMED = [b"\n", b";\n", b"*;\n", b"*\n", b"x\n", b"*zz;\n", b"*8d4;\n", b"*\
 def concretise(rng, kinds, sched):
     """kinds: string over V S E; sched: [(nbytes, gap)...] in abstract bytes (V = 5 bytes) -> real lines and segments.
     Cut points inside an abstract V line are mapped proportionally into the real 31-byte line."""
-    vs = valid_lines(rng, kinds.count("V"))
+    vs = valid_lines(rng, kinds.count("V") + kinds.count("U"))
     lines, abs_len = [], []
     vi = 0
     for c in kinds:
         if c == "V":
             lines.append(b"*" + vs[vi].encode() + b";\n"); vi += 1; abs_len.append(5)
+        elif c == "U":
+            # a frame text with a stray byte (the first byte of a multi-byte character, alone) in front of the `;`
+            lines.append(b"*" + vs[vi].encode() + rng.choice((b"\xc3", b"\xe2", b"\xff")) + b";\n"); vi += 1; abs_len.append(-5)
         elif c == "S":
             lines.append(b";\n"); abs_len.append(2)
         else:
@@ -64,10 +67,14 @@ def concretise(rng, kinds, sched):
     def real_off(a):
         off = 0
         for ln, al in zip(lines, abs_len):
-            if a >= al:
-                a -= al
+            if a >= abs(al):
+                a -= abs(al)
                 off += len(ln)
             else:
+                if al == -5:
+                    # abstract bytes of a U line: `*`, two halves of the hex, the stray byte, `;` newline
+                    inner = {0: 0, 1: 1, 2: rng.randrange(2, 15), 3: len(ln) - 3, 4: len(ln) - 2}[a]
+                    return off + inner
                 if al == 5:
                     # abstract positions 1..4 inside a frame line: after '*', inside the hex (two places), before ';' newline
                     inner = {0: 0, 1: 1, 2: rng.randrange(2, 15), 3: rng.randrange(15, len(ln) - 2), 4: len(ln) - 1}[a]
@@ -84,9 +91,7 @@ def concretise(rng, kinds, sched):
         rpos = r
     if rpos < len(stream):
         segs[-1][0] += list(stream[rpos:])
-    sent = [{"text": l[1:-2].decode("latin-1").lower() if l.startswith(b"*") and l.endswith(b";\n") and len(l) >= 3 else "", "wf": 1 if l.startswith(b"*") and len(l) > 3 and l[1:-2].isalnum() else 0}
-            for l in lines]
-    return segs, sent
+    return segs, line_info(lines)
 
 
 HEXPAIRS = re.compile(r"(?:[0-9a-f]{2})+")
@@ -158,12 +163,12 @@ def run_radar(bindir, script, sent, tag, mode, extra_args=()):
         rd.cleanup()
 
 
-def model_schedules(tier, rep, keep="1", guard="1"):
-    feeds = ["VSV", "VEVV"] if tier == "quick" else ["VSV", "VEVV", "VV", "SVE", "VVSV"]
+def model_schedules(tier, rep, keep="1", guard="1", textbuf="0"):
+    feeds = ["VSV", "VEVV", "VUV"] if tier == "quick" else ["VSV", "VEVV", "VV", "SVE", "VVSV", "VUV", "UV", "VUE"]
     out = []
     for feed in feeds:
         res = core.run_mc("MC_Feed", workers=4, timeout=1800, cache=False,
-                          env_extra={"FEED": feed, "KEEP": keep, "GUARD": guard, "MAXSEGS": "4" if len(feed) <= 3 else "3"})
+                          env_extra={"FEED": feed, "KEEP": keep, "GUARD": guard, "TEXTBUF": textbuf, "MAXSEGS": "4" if len(feed) <= 3 else "3"})
         rep.add_model(res, f"MC_Feed({feed})")
         if not res["ok"]:
             rep.mismatch("C16", "feed|model|" + feed, "level_a", {"kind": "model", "violated": res["violated"], "tail": res["output_tail"][-600:]})
@@ -194,8 +199,27 @@ def run(prop, tier, seed, rep):
         tlaps_nocrash(rep)
     bindir = core.build_apps()
     scheds = model_schedules(tier, rep)
+    # the line buffer as text (the code before fix 4fbaf9d): the model must lose the property on a line with a stray byte
+    r1 = core.run_mc("MC_Feed", workers=4, timeout=900, cache=False, env_extra={"FEED": "VUV", "KEEP": "1", "GUARD": "1", "TEXTBUF": "1", "MAXSEGS": "4"})
+    rep.extra["text_line_buffer_model_violates_LevelA"] = (not r1["ok"]) and "LevelA" in r1["violated"]
+    if r1["ok"]:
+        raise core.ToolError("anti-vacuity: the model with a text line buffer (read_line) no longer violates LevelA on a feed with a stray byte")
     jobs = []
     pick = rng.sample(scheds, min(len(scheds), 40 if tier == "quick" else 1500))
+    # ... and the schedules that tell a byte buffer from a text buffer: a pause right before and right after the stray byte
+    def isolates_stray(feed, sched):
+        if "U" not in feed:
+            return False
+        at = sum({"V": 5, "U": 5, "S": 2, "E": 1}[c] for c in feed[:feed.index("U")]) + 4      # the stray byte is the 4th of its line
+        cum, ends = 0, {}
+        for k, g in sched:
+            cum += k
+            ends[cum] = g
+        return ends.get(at - 1) == "long" and ends.get(at) == "long"
+    crit = [x for x in scheds if isolates_stray(*x)]
+    rng.shuffle(crit)
+    pick += [x for x in crit[:6 if tier == "quick" else 200] if x not in pick]
+    rep.extra["schedules_isolating_a_stray_byte_replayed"] = sum(1 for x in pick if isolates_stray(*x))
     for i, (feed, sched) in enumerate(pick):
         segs, sent = concretise(rng, feed, sched)
         jobs.append(("1090", segs, sent, f"model-{feed}", "hold"))
